@@ -222,7 +222,9 @@ nodesLoop:
 		case *ast.Text:
 
 		case *ast.Block:
+			tc.blockDepth++
 			node.Nodes = tc.checkNodesInNewScope(node, node.Nodes)
+			tc.blockDepth--
 
 		case *ast.Statements:
 			node.Nodes = tc.checkNodes(node.Nodes)
@@ -256,6 +258,7 @@ nodesLoop:
 				}
 			}
 			ti.setValue(nil)
+			tc.blockDepth++
 			node.Then.Nodes = tc.checkNodesInNewScope(node.Then, node.Then.Nodes)
 			terminating := tc.terminating
 			if node.Else == nil {
@@ -269,6 +272,7 @@ nodesLoop:
 				}
 				terminating = terminating && tc.terminating
 			}
+			tc.blockDepth--
 			tc.scopes.Exit()
 			tc.terminating = terminating
 
@@ -434,9 +438,12 @@ nodesLoop:
 				// The fallthrough must be a statement of the body of the
 				// case, not of a block or an 'if' nested in the body.
 				cas, ok := parent.(*ast.Case)
-				if ok && len(cas.Body) > 0 && (len(nodes) != len(cas.Body) || &nodes[0] != &cas.Body[0]) {
-					// nodes is not the body of the case: the fallthrough can
-					// only be the labeled statement that ends the body.
+				if tc.blockDepth > 0 {
+					ok = false
+				}
+				if ok && tc.labelDepth > 0 && len(cas.Body) > 0 {
+					// The fallthrough is labeled: it can only be the
+					// statement that ends the body.
 					last := cas.Body[len(cas.Body)-1]
 					for lab, isLabel := last.(*ast.Label); isLabel; lab, isLabel = last.(*ast.Label) {
 						last = lab.Statement
@@ -587,7 +594,10 @@ nodesLoop:
 				}
 				tc.scopes.Enter(cas)
 				tc.addToAncestors(cas)
+				blockDepth, labelDepth := tc.blockDepth, tc.labelDepth
+				tc.blockDepth, tc.labelDepth = 0, 0
 				cas.Body = tc.checkNodes(cas.Body)
+				tc.blockDepth, tc.labelDepth = blockDepth, labelDepth
 				tc.removeLastAncestor()
 				tc.scopes.Exit()
 				terminating = terminating && tc.terminating
@@ -668,7 +678,10 @@ nodesLoop:
 					clauseIdent = ast.NewIdentifier(cas.Position, name)
 					tc.scopes.Declare(name, ti, clauseIdent, nil)
 				}
+				blockDepth, labelDepth := tc.blockDepth, tc.labelDepth
+				tc.blockDepth, tc.labelDepth = 0, 0
 				cas.Body = tc.checkNodes(cas.Body)
+				tc.blockDepth, tc.labelDepth = blockDepth, labelDepth
 				if clauseIdent != nil && tc.compilation.indirectVars[clauseIdent] {
 					// The variable escapes in this clause: the emitter is told
 					// through the identifier of the guard.
@@ -716,7 +729,10 @@ nodesLoop:
 				case *ast.Send:
 					_ = tc.checkNodes([]ast.Node{comm})
 				}
+				blockDepth, labelDepth := tc.blockDepth, tc.labelDepth
+				tc.blockDepth, tc.labelDepth = 0, 0
 				cas.Body = tc.checkNodesInNewScope(node, cas.Body)
+				tc.blockDepth, tc.labelDepth = blockDepth, labelDepth
 				tc.scopes.Exit()
 				terminating = terminating && tc.terminating
 			}
@@ -935,7 +951,9 @@ nodesLoop:
 				node.Statement = tc.forInToForRange(forIn)
 			}
 			if node.Statement != nil {
+				tc.labelDepth++
 				_ = tc.checkNodes([]ast.Node{node.Statement})
+				tc.labelDepth--
 			}
 
 		case *ast.Comment, *ast.Raw:
